@@ -137,8 +137,12 @@ func (f *fAdapterTransport) readFrame(framedTransport *TFramedTransport) ([]byte
 // IsOpen returns true if the transport is open, false otherwise.
 func (f *fAdapterTransport) IsOpen() bool {
 	f.mu.RLock()
-	defer f.mu.RUnlock()
-	return f.isOpen && f.transport.IsOpen()
+	isOpen := f.isOpen
+	f.mu.RUnlock()
+	// The underlying transport is asked without the lock held: a socket
+	// answers only once the read loop's pending read is over, and Close,
+	// which ends that read, must be able to take the lock meanwhile.
+	return isOpen && f.transport.IsOpen()
 }
 
 // Close closes the transport.
